@@ -693,7 +693,7 @@ pub fn property() -> Property {
     let rex = "control = off + shape * 2^k per axis, decomposition exact: unit of length from the smallest subnormal to max|control| = MAX/64 (also per axis), curves translated by +-{1,5/4,3/2,2-2^-10}*2^e with 1..MANT-3 bits between offset and extent; shapes: dyadic, shallow extremum, branch families, lower degree + 2^-j, small integers, continuous. *_inflection(s) in [0,1], zeros of the shape's derivative, well-conditioned interior simple roots reported (docs: 'if any'); min_*/max_*/*_bounds in [0,1] and extreme over end values, critical points and a 1025-point grid; aabr/aabb sides equal the true extremes; all within 32 eps max|control| + 16 quanta, in shape units";
     per_type_r!("regime-extrema", "f64", rex, 192, 4_000, extrema_regime_case, f64);
     per_type_r!("regime-extrema", "f32", rex, 192, 4_000, extrema_regime_case, f32);
-    let rse = "closest-point search on placed curves (one unit 2^k for all axes such that squared differences stay normal, offsets per axis), query on / next to / anywhere / up to 2^20 extents away: returned point == evaluate(returned t) == the shape's curve point there; not farther than the end point and every coarse sample, within the rounding of the squared distances (2 d^(1/2) E + E^2 + 8 eps d, E = evaluation error relative to max|control| per axis)";
+    let rse = "closest-point search on placed curves (one unit 2^k for all axes such that squared differences stay normal, offsets per axis), query on / next to / anywhere / up to 2^14 diameters of the control polygon away: returned point == evaluate(returned t) == the shape's curve point there; not farther than the end point and every coarse sample, within the rounding of the squared distances (2 d^(1/2) E + E^2 + 8 eps d, E = evaluation error relative to max|control| per axis)";
     per_type_r!("regime-search", "f64", rse, 192, 1_500, search_regime_case, f64);
     per_type_r!("regime-search", "f32", rse, 192, 1_500, search_regime_case, f32);
     let rle = "length_by_discretization on placed curves (same placements as the search): >= chord, <= control polygon, L(2s+1) >= L(s), == polyline with s+1 segments, within 2 E per segment + 4 eps (segments+2) polygon";
@@ -706,7 +706,7 @@ pub fn property() -> Property {
     });
     checks.push(Check {
         name: "regime-grid-f32",
-        about: "deterministic grid: 12 shapes per degree x 15 unit exponents -149..119 / 72 translations (2^e, e in {-100,-10,8,16,30,100}, gap in {2,..,19}, both signs) x 4 curve types; same clauses as regime-extrema",
+        about: "deterministic grid: 12 shapes per degree x 15 unit exponents -149..119 / 84 translations (2^e, e in {-100,-10,8,16,30,100}, gap in {2,6,7,8,12,16,19}, both signs) x 4 curve types; same clauses as regime-extrema",
         kind: Kind::Index { total: regime::grid_total::<f32>(), quick: regime::grid_total::<f32>(), thorough: regime::grid_total::<f32>(), f: regime::grid_case::<f32> },
     });
     checks.push(Check {
@@ -724,8 +724,9 @@ pub fn property() -> Property {
             "float curves: the extreme of a coordinate is taken over a 4097-point grid, the end points and critical parameters from a stable f64 quadratic formula; tolerance 32 eps max|control| on values, 256 eps (|A|+|B|+|C|) on derivative residuals",
             "closed interval [0,1] accepted for reported inflection parameters; the search is not required to return a parameter in [0,1] (the statement is silent) — such returns are only counted (label)",
             "regime checks (floats only; regime.rs): every curve is control = off + shape * 2^k per axis with the decomposition recomputed exactly from the stored control values ((c - off) / 2^k: Sterbenz subtraction, power-of-two division), the oracle works in f64 on the shape (|shape| < 2^12) and all comparisons are made in shape units; value tolerance 32 eps_S max|control| + 16 subnormal quanta of S (+ 64 eps_f64 max|shape| for the oracle), derivative residual 256 eps_S (|A|+|B|+|C|) + 64 eps_S max|control| (forming A, B, C from translated control values perturbs the derivative polynomial by <= 36 eps max|control|); box sides 2x the value tolerance (one more evaluation)",
-            "regime exclusions (what no implementation working in S can deliver): max|control| > MAX/64 (3*(e-3c1+3c0-s) and ctrl*3 inside evaluate reach 24 max|control|); for search and length the common unit 2^k is restricted so that squared coordinate differences neither overflow nor lose bits to underflow (vek's magnitude / distance_squared are documented as the plain sqrt / sum of squares): f64 k in [-454, 506-s-far], f32 k in [-35, 59-s-far] (s = exponent of the shape, far = exponent of the farthest query); offsets keep gap >= 1 bit above the shape and <= MANT-3 (below that the stored curve has < 2 bits of shape left); subnormal control values are included for the per-axis clauses (absolute error of evaluate there: half a quantum per product)",
+            "regime exclusions (what no implementation working in S can deliver): max|control| > MAX/64 (3*(e-3c1+3c0-s) and ctrl*3 inside evaluate reach 24 max|control|); for search and length the common unit 2^k is restricted so that squared coordinate differences neither overflow nor lose bits to underflow (vek's magnitude / distance_squared are documented as the plain sqrt / sum of squares): f64 k in [-454, 507-s-far], f32 k in [-35, 59-s-far] (s = exponent of the shape, far = exponent of the farthest query); offsets keep gap >= 1 bit above the shape and <= MANT-3 (below that the stored curve has < 2 bits of shape left); subnormal control values are included for the per-axis clauses (absolute error of evaluate there: half a quantum per product)",
             "regime checks additionally assert the documented 'inflection point along the axis, if any' in floats only for a simple root r of the shape's derivative in [1/16, 15/16] that provably survives the admitted perturbation: with D = |p'(r)| and s = 2 dtol / D, s <= 1/256, |A| s <= D/4 and (D / max|coef|)^2 > 16 eps (away from the code's double-root branch); a reported parameter within 2s of r is demanded",
+            "regime-search asks for epsilon >= 1e-6 on translated curves (2 EPSILON only on untranslated ones): the property has no clause on running time, and on a translated curve the distance computed from points quantised to ulp(offset) is a staircase on which vek's binary phase (which keeps stepping by the current half interval while the distance decreases) was observed to take 4.35e9 steps (23 s): QuadraticBezier2<f64> x = -7.99167628880894e147 + (4,6,2)*2^438, y = (-6.875,-7.0625,-6.5)*2^438, p = (-7.991676288808937e147, 4.306074744756277e132), steps = 27, epsilon = 2 EPSILON; the result satisfied every clause",
             "Rat is not used in the regime checks: exact arithmetic is invariant under translation and scaling, and 2^k with |k| > 24 overflows the i128 rationals in the cubic terms",
         ],
         checks,
